@@ -197,3 +197,83 @@ Theorem clock_monotone_refuted_F02c :
          State2.Ok (tt, s') /\ BinInt.Z.lt (State2.now s') (State2.now s).
 Proof. exact Clock2.clock_monotone_refuted_F02c. Qed.
 Print Assumptions clock_monotone_refuted_F02c.
+
+(* ---- Clock2r ---- *)
+From CiwV.Inv Require Clock2r.
+
+Theorem event_step_clk2r_partial :
+  forall (cf : State2.config) (s : State2.sim) 
+         (d : State2.draws) (s' : State2.sim),
+       Clock2r.scope_r_partial cf = true ->
+       Clock2r.Clk2r cf s ->
+       Clock2.DrawsOK d ->
+       Engine2.event_step cf
+         (RecordSet.set State2.dr (fun _ : State2.draws => d) s) =
+       State2.Ok (tt, s') ->
+       Clock2r.Clk2r cf s' /\ BinInt.Z.le (State2.now s) (State2.now s').
+Proof. exact Clock2r.event_step_clk2r_partial. Qed.
+Print Assumptions event_step_clk2r_partial.
+
+Theorem run_many_clk2r_partial :
+  forall cf : State2.config,
+       Clock2r.scope_r_partial cf = true ->
+       forall (ds : list State2.draws) (s s' : State2.sim),
+       Clock2r.Clk2r cf s ->
+       List.Forall Clock2.DrawsOK ds ->
+       Codec2.run_many cf s ds = State2.Ok s' ->
+       Clock2r.Clk2r cf s' /\ BinInt.Z.le (State2.now s) (State2.now s').
+Proof. exact Clock2r.run_many_clk2r_partial. Qed.
+Print Assumptions run_many_clk2r_partial.
+
+Theorem Clk2r_means_resume :
+  forall (cf : State2.config) (s : State2.sim),
+       Clock2r.Clk2r cf s ->
+       (forall nd : State2.node,
+        List.In nd (State2.nodes s) ->
+        BinInt.Z.le (State2.n_lenbq nd) BinNums.Z0) /\
+       (forall x : State2.ind,
+        List.In x (State2.inds s) -> State2.i_blocked x = false) /\
+       (forall (x : State2.ind) (tl : BinNums.Z),
+        List.In x (State2.inds s) ->
+        State2.i_smark x = BinNums.Zpos BinNums.xH ->
+        State2.i_tleft x = Some tl -> BinInt.Z.le BinNums.Z0 tl) /\
+       (forall (x : State2.ind) (st : BinNums.Z),
+        List.In x (State2.inds s) ->
+        State2.i_stime x = Some st -> BinInt.Z.le BinNums.Z0 st) /\
+       (forall (x : State2.ind) (j : BinNums.Z) (nc : State2.ncfg),
+        List.In x (State2.inds s) ->
+        State2.i_node x = Some j ->
+        Engine2.nthZ (State2.cf_nodes cf)
+          (BinInt.Z.sub j (BinNums.Zpos BinNums.xH)) = 
+        Some nc ->
+        Engine2.nc_slotted nc = true ->
+        State2.i_sst x <> None ->
+        exists e : BinNums.Z,
+          State2.i_send x = Some e /\ BinInt.Z.le (State2.now s) e).
+Proof. exact Clock2r.Clk2r_means_resume. Qed.
+Print Assumptions Clk2r_means_resume.
+
+Theorem run_many_noblock_tleft_partial :
+  forall cf : State2.config,
+       Clock2r.scope_r_partial cf = true ->
+       forall (ds : list State2.draws) (s s' : State2.sim),
+       Clock2r.Clk2r cf s ->
+       List.Forall Clock2.DrawsOK ds ->
+       Codec2.run_many cf s ds = State2.Ok s' ->
+       (forall nd : State2.node,
+        List.In nd (State2.nodes s') ->
+        BinInt.Z.le (State2.n_lenbq nd) BinNums.Z0) /\
+       (forall x : State2.ind,
+        List.In x (State2.inds s') -> State2.i_blocked x = false) /\
+       (forall (x : State2.ind) (tl : BinNums.Z),
+        List.In x (State2.inds s') ->
+        State2.i_smark x = BinNums.Zpos BinNums.xH ->
+        State2.i_tleft x = Some tl -> BinInt.Z.le BinNums.Z0 tl).
+Proof. exact Clock2r.run_many_noblock_tleft_partial. Qed.
+Print Assumptions run_many_noblock_tleft_partial.
+
+Theorem clk2r_b_sound :
+  forall (cf : State2.config) (s : State2.sim),
+       Clock2r.clk2r_b cf s = true -> Clock2r.Clk2r cf s.
+Proof. exact Clock2r.clk2r_b_sound. Qed.
+Print Assumptions clk2r_b_sound.
